@@ -1,4 +1,5 @@
 import DiscretModel.Lemmas.QueryOrder
+import DiscretModel.Lemmas.SqlCompile
 /-
 C05 — Query results equal a direct evaluation of the query over the data.
 
@@ -195,3 +196,128 @@ example : (evalRows Defects.asImplemented exSchema distinctData 1 "E0" (fullQuer
   decide
 
 end Discret.Query
+
+/-! ## The SQL compiler computes the evaluator (single-entity fragment)
+
+`Model/SqlGen.lean` is a literal model of the SQL text generation of `query.rs` for one entity selection
+(scalar and `id` selections with defaults and aliases, filters, `order_by`, `first`/`skip`, `before`/`after`):
+`compile` builds the statement as a small tree, `render` prints it, and on every run of the check the printed text
+and the bound values are compared byte for byte with what `PreparedQueries::build` / `build_query_params`
+produce. `Model/SqlSem.lean` says what SQLite computes for such a tree on a `_node` table (trusted; the rows it
+predicts are compared with the real engine's on every run). The theorem below closes the gap between the two for
+the code as it is (`Defects.asImplemented`): the deviations of the code (`order-ignores-default`,
+`explicit-null-hides-default`, `bool-default-returned-as-number`, `null-param-filter-no-match`, cursors that
+drop absent keys) are consequences of the generated SQL under that semantics, not assumptions. -/
+namespace Discret.SqlCompile
+open Discret.Query Discret.SqlGen Discret.SqlSem
+
+/-- **C05 (compiler, single-entity fragment).** For every data model `s`, every data set, every query `q` of the
+    fragment (`inFragment`: scalar / `id` selections with distinct keys, filters with any operator on aliases and
+    fields with literal, `null` or variable values, any `order_by`, literal `first` / `skip`, `before` or `after`),
+    every naming of entities and fields by the data model that is injective, every naming `vn` of the filters'
+    variables and every parameter set `env` giving each variable the value the query was evaluated with:
+
+    running the generated statement (`SqlSem.run`) on the `_node` table that stores the data set returns exactly
+    the list of JSON objects the reference evaluator computes for the code as it is — same objects, same order.
+
+    Equality is equality of lists. Where the language defines no order (no `order_by`, or rows that tie on every
+    key) both sides keep the order of the data set / of the table scan; as the statement holds for every `data`,
+    it holds for whatever scan order the engine uses, provided its sort is stable (that part is `SqlSem`, trusted,
+    and compared with the real engine modulo permutations inside tie groups). -/
+theorem C05_compile_correct (nm : Names) (s : Schema) (data : Data) (q : Query) (vn : Nat → String)
+    (env : String → Val) (fuel : Nat) (rootKey : String)
+    (hfrag : inFragment s q = true)
+    (hent : ∀ a b, nm.entShort a = nm.entShort b → a = b)
+    (hfld : ∀ a b, nm.fieldShort q.ent a = nm.fieldShort q.ent b → a = b)
+    (henv : ∀ i f, q.filters[i]? = some f → f.isParam = true → env (vn i) = f.value) :
+    SqlSem.run (encode nm data) (compile nm s vn q) env =
+      Query.eval Defects.asImplemented s data (fuel + 2) rootKey q :=
+  compile_correct nm s data q vn env fuel rootKey hfrag hent hfld henv
+
+/-- a query of the fragment is never refused by the engine (`refused` only concerns `skip` without `first`, fixed,
+    and sub-selections) -/
+theorem C05_fragment_not_refused (s : Schema) (q : Query) (fuel : Nat) (h : inFragment s q = true) :
+    refused Defects.asImplemented s fuel q true = false := by
+  obtain ⟨hsels, _⟩ := inFragment_parts h
+  cases fuel with
+  | zero => rfl
+  | succ k =>
+    simp only [refused, Defects.asImplemented, Bool.false_and, Bool.false_or, List.any_eq_false]
+    intro sel hsel
+    have := hsels sel hsel
+    cases sel <;> simp_all [selOk]
+
+/-- the WHERE clause of the generated statement keeps exactly the rows of the entity that satisfy every filter and
+    the cursor (the clause-level statement behind `C05_compile_correct`) -/
+theorem C05_compile_where (nm : Names) (s : Schema) (q : Query) (vn : Nat → String) (env : String → Val)
+    (hfrag : inFragment s q = true)
+    (hent : ∀ a b, nm.entShort a = nm.entShort b → a = b)
+    (hfld : ∀ a b, nm.fieldShort q.ent a = nm.fieldShort q.ent b → a = b)
+    (henv : ∀ i f, q.filters[i]? = some f → f.isParam = true → env (vn i) = f.value) (r : Row) :
+    whereHolds (compile nm s vn q) (bindVal env (compile nm s vn q).binds) (encodeRow nm r) =
+      (decide (r.ent = q.ent) && q.filters.all (filterHolds Defects.asImplemented s q.ent r) &&
+        cursorHolds Defects.asImplemented q.orders q.after q.before
+          (keysOf Defects.asImplemented s q.ent q.orders r)) :=
+  whereHolds_spec env nm s vn q hfrag hent hfld henv r
+
+/-! ### the hypotheses are satisfiable by a non-trivial instance, and the printed text is the code's -/
+
+def xs (n : Nat) : String := String.ofList (List.replicate n 'x')
+
+theorem xs_inj (a b : Nat) (h : xs a = xs b) : a = b := by
+  have := congrArg String.length h
+  simpa [xs] using this
+
+def nmEx : Names := { table := "P", entShort := fun i => xs (i + 1), fieldShort := fun _ j => xs (j + 1) }
+
+def schemaEx : Schema :=
+  [[{ kind := .int, nullable := false, dflt := none }, { kind := .str, nullable := false, dflt := some (.str ['a', 'b']) },
+    { kind := .bool, nullable := true, dflt := none }]]
+
+/-- `P(a != $p0, f2 = null, order_by(a desc, f0 asc), first 2, after("b")) { f0 a: f1 id }` -/
+def queryEx : Query :=
+  Query.mk 0 [.scalar "f0" 0, .scalar "a" 1, .id "id"]
+    [{ onAlias := true, fld := 1, op := .ne, value := .str ['z'], isParam := true, name := "a" },
+     { onAlias := false, fld := 2, op := .eq, value := .null, isParam := false, name := "f2" }]
+    [{ name := "a", onAlias := true, fld := 1, desc := true }, { name := "f0", onAlias := false, fld := 0, desc := false }]
+    2 0 [.str ['b']] []
+
+def dataEx : Data :=
+  [{ id := 1, ent := 0, vals := [(0, .int 1), (1, .str ['a'])], refs := [] },
+   { id := 2, ent := 0, vals := [(0, .int 2)], refs := [] },
+   { id := 3, ent := 0, vals := [(0, .int 3), (1, .str ['z'])], refs := [] },
+   { id := 4, ent := 0, vals := [(0, .int 4), (2, .bool true)], refs := [] },
+   { id := 5, ent := 0, vals := [(0, .int 5), (1, .str ['a', 'b']), (2, .null)], refs := [] }]
+
+example : inFragment schemaEx queryEx = true := by decide
+
+example : ∀ a b, nmEx.entShort a = nmEx.entShort b → a = b := fun a b h => by
+  have := xs_inj _ _ h; omega
+
+example : ∀ a b, nmEx.fieldShort queryEx.ent a = nmEx.fieldShort queryEx.ent b → a = b := fun a b h => by
+  have := xs_inj _ _ h; omega
+
+/-- rows 2 and 5 are selected (the default "ab" of row 2 sorts after the cursor "b" descending, rows 1 and 3 are
+    filtered out or before the cursor, row 4 stores f2), in that order -/
+example :
+    (SqlSem.run (encode nmEx dataEx) (compile nmEx schemaEx (fun _ => "p0") queryEx) (fun _ => .str ['z'])).map
+      (fun j => String.ofList (jsonChars 8 j)) =
+      ["{\"f0\":2,\"a\":\"ab\",\"id\":2}", "{\"f0\":5,\"a\":\"ab\",\"id\":5}"] := by
+  decide
+
+example : (compile nmEx schemaEx (fun _ => "p0") queryEx).binds =
+    [.text ['a', 'b'], .var "p0", .text ['a', 'b'], .text ['b']] := by decide
+
+set_option maxRecDepth 4000 in
+/-- the clauses of that statement as `query.rs` writes them (the whole text is compared byte for byte with
+    `SingleQuery.sql_query` on every run of the check) -/
+example :
+    renderEnd 1 (compile nmEx schemaEx (fun _ => "p0") queryEx) =
+      "AND \n    CASE\n        WHEN ?3 != ?2 THEN value->>'$.a' != ?2 OR value->>'$.a' is null \n        ELSE value->>'$.a' != ?2 \n    END AND\n    _json->>'$.xxx' is null AND \n    (value->>'$.a' < ?4) \n    ORDER BY value->>'$.a' desc , _json->>'$.x' asc " ∧
+    renderFields "P" 1 (compile nmEx schemaEx (fun _ => "p0") queryEx).proj =
+      "json_object(\n    'f0',_json->'$.x',\n    'a',Ifnull(_json->'$.xx',?1),\n    'id', base64_encode(P.id))" ∧
+    renderLimit (compile nmEx schemaEx (fun _ => "p0") queryEx).limit (compile nmEx schemaEx (fun _ => "p0") queryEx).offset =
+      "LIMIT 2" := by
+  refine ⟨?_, ?_, ?_⟩ <;> decide
+
+end Discret.SqlCompile
